@@ -64,6 +64,16 @@ func NewCtx(prop, tier string, seed int64, level string) *Ctx {
 
 func (c *Ctx) Quick() bool { return c.Tier != "thorough" }
 
+// Watchdog is the generous wall-clock limit of one worker process (quick runs take seconds to two
+// minutes, thorough runs up to a quarter of an hour). It never decides a verdict by itself: a worker
+// that exceeds it is run again, and only two firings in a row are reported, as a hang.
+func (c *Ctx) Watchdog() time.Duration {
+	if c.Quick() {
+		return 8 * time.Minute
+	}
+	return 45 * time.Minute
+}
+
 // N picks the case count for the tier.
 func (c *Ctx) N(quick, thorough int) int {
 	if c.Quick() {
